@@ -959,20 +959,16 @@ func (p *Parser) parseRegexpLiteral() ast.Expression {
 
 	val := p.curToken.Literal
 	if strings.HasPrefix(val, "(?") {
-		val = strings.TrimPrefix(val, "(?")
 
-		i := 0
-		for i < len(val) {
-
-			if val[i] == ')' {
-
-				val = val[i+1:]
-				break
-			} else {
-				flags += string(val[i])
-			}
-
-			i++
+		// The lexer writes the flags of the literal in front of the
+		// pattern, as "(?flags)".  Only a complete group which holds
+		// nothing but flag-letters is such a prefix: anything else
+		// - "(?", "(?)", "(?:..)" - belongs to the pattern itself,
+		// and is left alone.
+		end := strings.IndexByte(val, ')')
+		if end > 2 && strings.Trim(val[2:end], "imsU") == "" {
+			flags = val[2:end]
+			val = val[end+1:]
 		}
 	}
 	return &ast.RegexpLiteral{Token: p.curToken, Value: val, Flags: flags}
